@@ -310,8 +310,8 @@ def run_property(a, seed, run_contracts):
         print('KNOWN-FINDING: property=%s %s' % (prop, kf.get('what_fails', kf['id'])))
     for cid, rp, suffix in violations:
         print('VIOLATION property=%s replay=%s%s' % (prop, rp, suffix))
-    if violations and exit_code == 0:
-        exit_code = 1
+    if violations and (exit_code == 0 or any(sfx == '' for _c, _r, sfx in violations)):
+        exit_code = 1          # a violation replayed on the real code stands whatever else went wrong
     if exit_code == 0 and undecided:
         exit_code = 2
     if exit_code == 0 and obligations == 0:
